@@ -227,7 +227,7 @@ Definition more_failed (c : ucase) : bool :=
   forallb (fun m => match find_more (snd (fst m)) a with Some _ => true | None => false end) b
   && forallb (fun m : more_t =>
        let '(k, name, rows) := m in
-       if (k =? 2)%Z || (k =? 3)%Z then match rows with [] => true | _ => false end
+       if (k =? 2)%Z || (k =? 3)%Z || (k =? 5)%Z then match rows with [] => true | _ => false end
        else match find_more name b with
             | Some r0 => if (k =? 0)%Z then mset_eqb pair_eqb r0 rows else list_eqb pair_eqb r0 rows
             | None => false
@@ -242,15 +242,24 @@ Definition more_failed (c : ucase) : bool :=
     and none more often than there; a listing that does not name it lists the
     earlier uploads as before and this one at most once; the plain listing
     limited to one row lists this upload; upload:<id> returns exactly [exp] and
-    lists exactly this upload with all its records *)
+    lists exactly this upload with all its records; upload:<id> narrowed by
+    "has a label upload-part / upload-time / name" (every stored record has
+    them) returns exactly [exp] too *)
 Definition more_succeeded (c : ucase) (id : bytes) (n : N) (exp : list (bytes * bytes)) : bool :=
   let b := ob_more (uc_before c) in let a := ob_more (uc_after c) in
   let mine (r : bytes * bytes) := beq (fst r) id in
   forallb (fun m => match find_more (snd (fst m)) a with Some _ => true | None => false end) b
   && has_more 2 (bs "S:upload:" ++ id) a && has_more 3 (bs "L:upload:" ++ id) a
+  && has_more 5 (bs "S:upload:" ++ id ++ bs " name>") a
+  && has_more 5 (bs "S:upload:" ++ id ++ bs " upload-part>") a
   && forallb (fun m : more_t =>
        let '(k, name, rows) := m in
-       if (k =? 2)%Z then
+       (* kind 5: upload:<id> together with "has the label k", for labels EVERY stored record
+          carries (the server's upload-part / upload-time, the benchmark's name): exactly [exp] *)
+       if (k =? 5)%Z then
+         if has_prefix name (bs "S:upload:" ++ id ++ bs " ") then mset_eqb pair_eqb rows exp
+         else match rows with [] => true | _ => false end
+       else if (k =? 2)%Z then
          if beq name (bs "S:upload:" ++ id) then mset_eqb pair_eqb rows exp
          else match rows with [] => true | _ => false end
        else if (k =? 3)%Z then
